@@ -2,6 +2,7 @@
 from . import steps
 from .. import sig as SG
 from ..explore import rewrite as RW
+from ..gen import exprs as X
 from ..oracle import equiv
 
 LEVEL = "model_checking"
@@ -61,6 +62,10 @@ def run(tier, seed):
     texts, heavy = steps.start_texts(tier, "eqn")
     depth = 2 if tier == "quick" else 3
     acc = steps.run(V, texts, depth, "eqn", seed, heavy)
+    if tier == "quick":
+        # ancestor chains of length two around the moved term: one step each is enough (the decision is local)
+        deep_ctx = X.contexts(2, ["2", "x", "3x"])
+        acc.merge(steps.run(V, deep_ctx, 1, "eqn", seed, 0, key="deepctx"))
     small = steps.small_texts("eqn") if tier == "quick" else texts[heavy:][::3]
     acc.merge(steps.run(V, small, "inplace", "eqn", seed, 0, key="small"))  # live-tree mode, 2 steps
     cov = {
